@@ -29,7 +29,7 @@ impl Identity {
 
 pub fn pool() -> &'static Vec<Identity> {
     static P: OnceLock<Vec<Identity>> = OnceLock::new();
-    P.get_or_init(|| {
+    P.get_or_init(|| crate::interpose::with_rng(Prng::new(0x0BAD_5EED), || {
         let mut prng = Prng::new(0x1DE7_7177);
         let mut v = Vec::with_capacity(POOL);
         while v.len() < POOL {
@@ -42,7 +42,7 @@ pub fn pool() -> &'static Vec<Identity> {
             }
         }
         v
-    })
+    }))
 }
 
 #[derive(Clone, Copy, PartialEq, Eq, Hash, Debug)]
@@ -62,6 +62,15 @@ pub fn record(spec: RecSpec) -> Enr {
         return e.clone();
     }
     let key = pool()[spec.ident].key();
+    // ENR signing draws from OsRng: give it a stream that depends on the spec only
+    let stream = {
+        let mut h = crate::prng::label_hash(&format!("{spec:?}"));
+        Prng::new(crate::prng::splitmix(&mut h))
+    };
+    crate::interpose::with_rng(stream, || build_record(spec, &key, c))
+}
+
+fn build_record(spec: RecSpec, key: &CombinedKey, c: &Mutex<HashMap<RecSpec, Enr>>) -> Enr {
     let mut b = Enr::builder();
     b.seq(spec.seq);
     if let Some((ip, port)) = spec.ip4 {
@@ -76,7 +85,7 @@ pub fn record(spec: RecSpec) -> Enr {
         let bytes: Vec<u8> = (0..spec.pad).map(|i| (i % 251) as u8).collect();
         b.add_value("pad", &bytes.as_slice());
     }
-    let enr = b.build(&key).expect("enr build");
+    let enr = b.build(key).expect("enr build");
     let mut g = c.lock().unwrap();
     if g.len() > 200_000 {
         g.clear();
